@@ -7,6 +7,7 @@ package main
 // the specification.
 
 import (
+	"bytes"
 	"context"
 	"encoding/json"
 	"fmt"
@@ -563,6 +564,9 @@ func randomMapTrace(id int, seed int64, steps int, out *json.Encoder, fixed *map
 		}
 		if profile == "c08" {
 			cfg.NK = 6
+			if rng.Intn(4) == 0 {
+				cfg.NK = 14 // taller trees: merges and splits of key-less middle nodes
+			}
 			cfg.Bf = []uint{2, 3, 16}[rng.Intn(3)]
 			cfg.KT = []string{"int", "string", "bytes", "userkey", "struct", "uint64"}[rng.Intn(6)]
 			cfg.VT = []string{"int", "string", "intslice"}[rng.Intn(3)]
@@ -582,7 +586,7 @@ func randomMapTrace(id int, seed int64, steps int, out *json.Encoder, fixed *map
 	crng := rng
 	if profile == "c08" {
 		// the same key universe for every history of a configuration, so that different histories meet in the same nodes
-		h := int64(len(cfg.KT))*1000003 + int64(cfg.Bf)*7919 + int64(cfg.KT[0])*31 + int64(cfg.KT[len(cfg.KT)-1])
+		h := int64(len(cfg.KT))*1000003 + int64(cfg.Bf)*7919 + int64(cfg.KT[0])*31 + int64(cfg.KT[len(cfg.KT)-1]) + int64(cfg.NK)*104729
 		crng = rand.New(rand.NewSource(h))
 	}
 	r := newMapRun(cfg, crng, out)
@@ -916,6 +920,7 @@ func (r *mapRun) concurrentCloneFlush(rng *rand.Rand) {
 				ev.Node.V = append(ev.Node.V, vc.RankFromJSON(rn.Vals[i]))
 			}
 			ev.Node.C = append(ev.Node.C, rn.Links...)
+			ev.Canon = bytes.Equal(canonEncode(r.cfg.NF, rn), s.Bytes)
 		}
 		storesOut.Encode(ev)
 	}
@@ -939,6 +944,23 @@ type stEvent struct {
 	HashOk bool   `json:"hashok"`
 	Node   stNode `json:"node"`
 	Dec    bool   `json:"dec"`
+	Canon  bool   `json:"canon"` // the bytes are what the harness's own encoders give for the decoded entries and child names
+}
+
+// canonEncode: the one encoding the published formats give a node (elements as written; the link table left out when every link is nil).
+func canonEncode(nf string, rn *rawNode) []byte {
+	links := rn.Links
+	all := true
+	for _, l := range links {
+		all = all && l == ""
+	}
+	if all {
+		links = nil
+	}
+	if nf == "bin" {
+		return encBin(rn.Keys, rn.Vals, links)
+	}
+	return encV1(rn.Keys, rn.Vals, links)
 }
 
 func (r *mapRun) dumpStores() {
@@ -955,6 +977,7 @@ func (r *mapRun) dumpStores() {
 				ev.Node.V = append(ev.Node.V, r.vc.RankFromJSON(rn.Vals[i]))
 			}
 			ev.Node.C = append(ev.Node.C, rn.Links...)
+			ev.Canon = bytes.Equal(canonEncode(r.cfg.NF, rn), s.Bytes)
 		}
 		storesOut.Encode(ev)
 	}
